@@ -133,3 +133,13 @@ def tube_mole_rows(conditions, species, float_format, column_delimiter):
             row = row + column_delimiter + ff.format(c[s.name] if s.name in c else 0.0)
         rows.append(row)
     return rows
+
+
+def enthalpy_barrier_oRT(rxn, T):
+    """dimensionless enthalpy barrier of a Chemkin reaction: the enthalpy of
+    the transition state (of the products, if there is none) above the
+    reactants, never below the reaction enthalpy and never negative"""
+    change = rxn.get_delta_HoRT(act=False, T=T)
+    if rxn.transition_state is None:
+        return max(0, change)
+    return max(0, rxn.get_delta_HoRT(act=True, T=T), change)
